@@ -18,13 +18,14 @@ CONSTANTS Cmds,          \* subset of the command alphabet to explore
           MailKinds, RcptKinds, BodyKinds, HookKinds,
           MaxRcpts,      \* set of recipient limits (chosen in Init)
           Depth, Record,
+          TlsModes,      \* subset of {"off", "avail"}: is STARTTLS configured (chosen in Init)
           OnlyOk,        \* TRUE: only steps that the contract answers positively (valid dialogues)
           StartInTx      \* TRUE: behaviours start inside an open transaction (after EHLO, MAIL)
 
 VARIABLES hist, acked,   \* acked: per mailbox, number of messages the contract says were delivered
           prev,          \* the contract state before the last command (for the transition tour)
           pprev          \* ... and before the last two commands (2-switch tour)
-gvars == <<st, from, rcpts, boxes, maxRcpt, reply, hist, acked, prev, pprev>>
+gvars == <<st, from, rcpts, boxes, maxRcpt, reply, tls, hist, acked, prev, pprev>>
 
 NoHook == [action |-> "none"]
 (* scripted hook answers (C17): garbage (wrong kind of value), a raised error, *)
@@ -47,11 +48,11 @@ BodyDec(k) == [parse |-> k # "unparseable", fits |-> k # "big", hook |-> NoHook,
 
 Rec(x) == hist' = IF Record THEN Append(hist, x) ELSE hist
 
-GInit == /\ \E mr \in MaxRcpts :
+GInit == /\ \E mr \in MaxRcpts, t \in TlsModes :
                IF StartInTx
                THEN /\ st = "MAIL" /\ from = [sender |-> "ok"] /\ rcpts = <<>>
-                    /\ boxes = [m \in Mailbox |-> <<>>] /\ maxRcpt = mr /\ reply = Ok
-               ELSE SInit(mr)
+                    /\ boxes = [m \in Mailbox |-> <<>>] /\ maxRcpt = mr /\ reply = Ok /\ tls = t
+               ELSE SInitT(mr, t)
          /\ hist = IF StartInTx /\ Record
                    THEN <<[c |-> "helo", verb |-> "EHLO", arg |-> TRUE], [c |-> "mail", k |-> "ok", hook |-> "none"]>>
                    ELSE <<>>
@@ -71,8 +72,9 @@ GStep ==
     \/ \E k \in BodyKinds : Body([body |-> k], BodyDec(k)) /\ Rec([c |-> "body", k |-> k])
     \/ Has("rset") /\ Rset /\ Rec([c |-> "rset"])
     \/ \E w \in {"noop", "vrfy"} : Has(w) /\ Harmless /\ Rec([c |-> w])
-    \/ \E w \in {"unimpl", "unknown", "short", "empty", "garbage", "long", "starttls", "authother", "authplainnoarg", "authbare"} :
+    \/ \E w \in {"unimpl", "unknown", "short", "empty", "garbage", "long", "authother", "authplainnoarg", "authbare"} :
           Has(w) /\ Refused /\ Rec([c |-> w])
+    \/ Has("starttls") /\ StartTLS /\ Rec([c |-> "starttls"])
     \/ Has("authplain") /\ Auth("plain") /\ Rec([c |-> "authplain"])
     \/ Has("authlogin") /\ Auth("login") /\ Rec([c |-> "authlogin"])
     \/ \E w \in {"cred", "credquit", "credempty"} : Has("authlogin") /\ Credential /\ Rec([c |-> w])
@@ -84,7 +86,7 @@ Gain(m) == Cardinality({i \in DOMAIN rcpts : rcpts[i].store /\ rcpts[i].mbox = m
 GNext == /\ (Record => Len(hist) < Depth)
          /\ GStep
          /\ (OnlyOk => reply'.cls = "ok")
-         /\ prev' = <<st, from, rcpts, boxes, maxRcpt>> /\ pprev' = prev
+         /\ prev' = <<st, from, rcpts, boxes, maxRcpt, tls>> /\ pprev' = prev
          /\ acked' = IF st = "DATA" /\ reply'.cls = "ok"
                      THEN [m \in Mailbox |-> acked[m] + Gain(m)] ELSE acked
 
@@ -126,7 +128,7 @@ RcptOnlyInTransaction == [][(Len(rcpts') > Len(rcpts)) => st = "MAIL"]_gvars
 EnvelopeDiscarded ==
     [][((st = "DATA" /\ st' # "DATA" /\ st' # "QUIT") \/ (st' = "READY" /\ st \in {"MAIL"}))
          => (from' = NoSender /\ rcpts' = <<>>)]_gvars
-StepProps == [][NoStoreWithoutAck /\ FailStoresNothing /\ AppendOnly]_gvars
+StepProps == [][NoStoreWithoutAck /\ FailStoresNothing /\ AppendOnly /\ TlsStep]_gvars
 Bound == Len(boxes["A"]) + Len(boxes["B"]) <= 3
 Bound1 == Len(boxes["A"]) + Len(boxes["B"]) <= 1
 =============================================================================
